@@ -70,7 +70,7 @@ CHECKS = {
  'C13': dict(
   category='exploration',
   design_ref='DESIGN.md section 14',
-  technique='Hypothesis RuleBasedStateMachine + reference model + virtual clock + synthetic version-encoding upstream; bounded shrink; replay JSON',
+  technique='Hypothesis RuleBasedStateMachine + reference model + virtual clock + synthetic version-encoding upstream; deterministic two-thread race step (gated synthetic upstream plus a hook observing the file tile lock); bounded shrink; replay JSON',
   text='Stateful model-based exploration: generated histories of requests (single, meta, minimised, bulk), clock advances, threshold changes (absolute, relative, mtime of a file, seed-task '
        'threshold, cache-level refresh_before through the real config loader) and upstream failures run against real TileManagers on file, sqlite and mbtiles caches under a virtual clock. After '
        'every step the upstream call log, the served content version and all stored tile slots are compared with a reference model; the same-second band is accepted either way.',
